@@ -2,6 +2,7 @@ package sched
 
 import (
 	"context"
+	"encoding/base64"
 	"fmt"
 	"io"
 	"os"
@@ -20,6 +21,7 @@ import (
 	"github.com/ory/keto/internal/namespace"
 	"github.com/ory/keto/internal/persistence"
 	"github.com/ory/keto/internal/relationtuple"
+	"github.com/ory/keto/internal/x"
 	"github.com/ory/keto/verif/memstore"
 	"github.com/ory/keto/verif/refsem"
 	"github.com/ory/keto/verif/vsched"
@@ -106,7 +108,9 @@ func NewWorld(t testing.TB, o WorldOpt) *World {
 		if opl == "" {
 			opl = refsem.RenderOPL(o.Namespaces)
 		}
-		opts = append(opts, driver.WithOPL(opl))
+		// base64:// locations are decoded locally and not watched (a file:// location costs one
+		// inotify instance per registry, and the sandbox allows 128)
+		opts = append(opts, driver.WithConfig(config.KeyNamespaces+".location", "base64://"+base64.StdEncoding.EncodeToString([]byte(opl))))
 		if o.Strict {
 			opts = append(opts, driver.WithConfig(config.KeyNamespacesExperimentalStrictMode, true))
 		}
@@ -225,3 +229,87 @@ func fatalInfra(format string, a ...any) {
 }
 
 func deadlinePassed(d time.Time) bool { return !d.IsZero() && time.Now().After(d) }
+
+// ---------------------------------------------------------------- SQL-backed runs
+
+type countingDeps struct {
+	*driver.RegistryDefault
+	calls *int
+}
+
+type countingManager struct {
+	relationtuple.Manager
+	calls *int
+}
+
+func (m countingManager) GetRelationTuples(ctx context.Context, q *relationtuple.RelationQuery, o ...x.PaginationOptionSetter) ([]*relationtuple.RelationTuple, string, error) {
+	*m.calls++
+	return m.Manager.GetRelationTuples(ctx, q, o...)
+}
+func (m countingManager) ExistsRelationTuples(ctx context.Context, q *relationtuple.RelationQuery) (bool, error) {
+	*m.calls++
+	return m.Manager.ExistsRelationTuples(ctx, q)
+}
+
+type countingTraverser struct {
+	relationtuple.Traverser
+	calls *int
+}
+
+func (m countingTraverser) TraverseSubjectSetExpansion(ctx context.Context, t *relationtuple.RelationTuple) ([]*relationtuple.TraversalResult, error) {
+	*m.calls++
+	return m.Traverser.TraverseSubjectSetExpansion(ctx, t)
+}
+func (m countingTraverser) TraverseSubjectSetRewrite(ctx context.Context, t *relationtuple.RelationTuple, c []string) ([]*relationtuple.TraversalResult, error) {
+	*m.calls++
+	return m.Traverser.TraverseSubjectSetRewrite(ctx, t, c)
+}
+
+func (d *countingDeps) RelationTupleManager() relationtuple.Manager {
+	return countingManager{d.RegistryDefault.RelationTupleManager(), d.calls}
+}
+func (d *countingDeps) Traverser() relationtuple.Traverser {
+	return countingTraverser{d.RegistryDefault.Traverser(), d.calls}
+}
+
+// LoadSQL replaces the stored relationships of the registry's database by rows, with shard_ids
+// ascending in row order (shard_id is the order of every listing and traversal).
+func (w *World) LoadSQL(t testing.TB, rows []*relationtuple.RelationTuple) {
+	ctx := context.Background()
+	c := w.Reg.Persister().Connection(ctx)
+	if err := c.RawQuery("DELETE FROM keto_relation_tuples").Exec(); err != nil {
+		t.Fatalf("INFRA: truncate: %v", err)
+	}
+	nid := w.Reg.Persister().NetworkID(ctx)
+	for i, r := range rows {
+		shard := uuid.FromStringOrNil(fmt.Sprintf("00000000-0000-4000-8000-%012d", i+1))
+		var sid, ssn, sso, ssr any
+		switch s := r.Subject.(type) {
+		case *relationtuple.SubjectID:
+			sid = s.ID
+		case *relationtuple.SubjectSet:
+			ssn, sso, ssr = s.Namespace, s.Object, s.Relation
+		}
+		if err := c.RawQuery("INSERT INTO keto_relation_tuples (shard_id, nid, namespace, object, relation, subject_id, subject_set_namespace, subject_set_object, subject_set_relation, commit_time) VALUES (?, ?, ?, ?, ?, ?, ?, ?, ?, ?)",
+			shard, nid, r.Namespace, r.Object, r.Relation, sid, ssn, sso, ssr, time.Now()).Exec(); err != nil {
+			t.Fatalf("INFRA: insert: %v", err)
+		}
+	}
+}
+
+// RunCheckSQL runs the instrumented engine over the real SQL persister and traverser.
+func (w *World) RunCheckSQL(t testing.TB, rows []*relationtuple.RelationTuple, q *relationtuple.RelationTuple, vc vsched.Config, reqDepth int) CheckOut {
+	w.LoadSQL(t, rows)
+	w.Cut.reset()
+	var out CheckOut
+	calls := 0
+	eng := check.NewEngine(&countingDeps{w.Reg, &calls})
+	out.X = vsched.Run(vc, func() {
+		ctx, cancel := vsched.WithCancel(context.Background())
+		out.Res = eng.CheckRelationTuple(ctx, q, reqDepth)
+		cancel()
+	})
+	out.Cut = w.Cut.cut()
+	out.Calls = calls
+	return out
+}
